@@ -465,6 +465,7 @@ type callRec struct {
 	answered  bool
 	wireID    any
 	seen      bool // decoded by the peer
+	started   bool // the caller has entered conn.Call
 }
 
 type cworld struct {
@@ -569,6 +570,7 @@ func subC(rc *kernel.RunCtx, k *kernel.Kernel) {
 				ctx, cancel := context.WithCancel(context.Background())
 				w.mu.Lock()
 				r.cancel = cancel
+				r.started = true
 				w.mu.Unlock()
 				var res echo
 				_, err := conn.Call(ctx, "echo", echo{V: r.value}, &res)
@@ -691,6 +693,31 @@ func subC(rc *kernel.RunCtx, k *kernel.Kernel) {
 				k.Action("peer will never answer " + c.value)
 				never[c.value] = true
 				k.Count("fault_reply_never_sent", 1)
+			}})
+		}
+		// callers that have entered Call but whose frame is not out yet: either waiting for the
+		// write lock or in the middle of their own frame. Cancelling them is single-outcome in
+		// both cases (the write path looks at the context only before it starts a frame).
+		w.mu.Lock()
+		var entering []*callRec
+		for _, v := range w.order {
+			c := w.calls[v]
+			if c.started && !c.seen && !c.done && !c.cancelled {
+				entering = append(entering, c)
+			}
+		}
+		w.mu.Unlock()
+		for _, c := range entering {
+			c := c
+			if k.Find(c.task) != nil {
+				continue
+			}
+			acts = append(acts, action{wCancel, func() {
+				k.Action("cancel " + c.value + " before its frame is out")
+				c.cancelled = true
+				k.Count("fault_call_cancelled_while_queued_or_writing", 1)
+				c.cancel()
+				k.Quiesce()
 			}})
 		}
 		if nPeerReq < 4 {
